@@ -19,8 +19,9 @@ type Case struct {
 
 type SchedStep struct {
 	Thread string `json:"t"`
-	Site   string `json:"site"`
-	Kind   string `json:"k"`
+	Stop   string `json:"stop"`
+	Site   string `json:"site,omitempty"`
+	N      int    `json:"n,omitempty"`
 }
 
 type CaseResult struct {
